@@ -92,7 +92,7 @@ func (d *tlbDrv) decode(name string, t reflect.Type, class string, root *node, s
 		return
 	}
 	cells, bits, capped := measure(c)
-	in := ev.M{"type": name, "cells": cells, "bits": bits, "capped": capped, "val": false}
+	in := ev.M{"type": name, "cells": cells, "bits": bits, "capped": capped, "val": false, "seedid": -1}
 	if src != nil {
 		for k, v := range src {
 			in[k] = v
@@ -106,7 +106,7 @@ func (d *tlbDrv) decode(name string, t reflect.Type, class string, root *node, s
 	}
 	_, hasast := d.asts[name]
 	var p reflect.Value
-	d.r.CallPost("Decode", site, class, in, []string{"type", "cells", "bits", "capped", "val"}, func(out ev.M) error {
+	d.r.CallPost("Decode", site, class, in, []string{"type", "cells", "bits", "capped", "val", "seedid"}, func(out ev.M) error {
 		p = reflect.New(t)
 		if useDecoder {
 			return tlb.NewDecoder().Unmarshal(c, p.Interface())
@@ -267,11 +267,15 @@ func DriveBags(w *ev.Writer, o Opts) error {
 			Class string `json:"class"`
 			Boc   string `json:"boc"`
 			Roots int    `json:"nroots"`
+			Seed  int    `json:"seed"`
 		}
 		if err := json.Unmarshal(sc.Bytes(), &v); err != nil {
 			return err
 		}
 		t, ok := tlbx.Registry[v.Type]
+		if !ok {
+			t, ok = typeByName(v.Type)
+		}
 		if !ok {
 			return fmt.Errorf("bag for unknown type %q", v.Type)
 		}
@@ -300,7 +304,7 @@ func DriveBags(w *ev.Writer, o Opts) error {
 			continue
 		}
 		n := fromCell(roots[0], map[*boc.Cell]*node{})
-		d.decode(v.Type, t, "specgen:"+v.Class, n, ev.M{"boc": v.Boc}, ln%2 == 1)
+		d.decode(v.Type, t, "specgen:"+v.Class, n, ev.M{"boc": v.Boc, "seedid": v.Seed}, ln%2 == 1)
 	}
 	if o.AstOut != "" {
 		b, err := json.Marshal(d.asts)
@@ -331,6 +335,15 @@ func Seeds(w *ev.Writer, o Opts) error {
 		if h := realHeader(fmt.Sprintf("%s/tlb/testdata/block-%d/block.bin", repoDir(), b)); h != nil && len(h.all()) <= 14 {
 			m := h.table()
 			m["type"] = "tlb.BlockHeader"
+			m["seed"] = n
+			w.Emit(m)
+			n++
+		}
+	}
+	for _, rc := range smallDecodeOnly(o.Seed) {
+		if v, err := rc.build(); err == nil && len(v.all()) <= 16 {
+			m := v.table()
+			m["type"] = rc.typeName()
 			m["seed"] = n
 			w.Emit(m)
 			n++
